@@ -299,8 +299,48 @@ func mentionsOnly(it Item, name string) bool {
 // (rule "cursor") and returns the wire signature.
 func (l *Lifter) LiftBW(fd *ast.FuncDecl) []Item {
 	cur := &cursor{}
+	l.bwHole, l.bwPatched, l.bwPatchK = false, false, nil
 	items := l.bwBlock(fd.Body.List, cur, true)
+	if l.bwHole {
+		// the prefix every return filled in: (bytes reported) - K, which is
+		// Size()-K exactly when the method returns Size() (C02/R3)
+		k, same := -1, len(l.bwPatchK) > 0
+		for _, x := range l.bwPatchK {
+			if k >= 0 && x != k {
+				same = false
+			}
+			k = x
+		}
+		if !same {
+			l.fail("cursor", "", fd.Pos(), "the length prefix is filled in with differing or no values (%v)", l.bwPatchK)
+			k = -1
+		}
+		items = append([]Item{{Kind: KPrefix, Tag: k, Pos: fd.Body.Lbrace}}, items...)
+	}
 	return items
+}
+
+// bwBackPatch matches iohelp.WriteUint32Bytes(buf, uint32(at-K)).
+func (l *Lifter) bwBackPatch(s ast.Stmt) (int, bool) {
+	es, ok := s.(*ast.ExprStmt)
+	if !ok {
+		return 0, false
+	}
+	c, name, isIo := l.iohelpCall(es.X)
+	if !isIo || name != "WriteUint32Bytes" || len(c.Args) != 2 || !l.isIdent(c.Args[0], "buf") {
+		return 0, false
+	}
+	inner, conv := l.stripConv(c.Args[1])
+	b, ok := inner.(*ast.BinaryExpr)
+	if conv != "uint32" || !ok || b.Op != token.SUB || !l.isIdent(b.X, "at") {
+		return 0, false
+	}
+	return intLit(b.Y)
+}
+
+func (l *Lifter) isReturnAt(s ast.Stmt) bool {
+	r, ok := s.(*ast.ReturnStmt)
+	return ok && len(r.Results) == 1 && l.isIdent(r.Results[0], "at")
 }
 
 func (l *Lifter) bwClosed(cur *cursor, pos token.Pos, what string) {
@@ -335,12 +375,23 @@ func (l *Lifter) bwPutStmt(s ast.Stmt) (stem string, val ast.Expr, off Lin, ok b
 
 func (l *Lifter) bwBlock(stmts []ast.Stmt, cur *cursor, top bool) []Item {
 	var items []Item
-	for _, s := range stmts {
+	for i, s := range stmts {
 		// at := 0
 		if as, ok := s.(*ast.AssignStmt); ok && as.Tok == token.DEFINE && len(as.Lhs) == 1 && l.isIdent(as.Lhs[0], "at") {
 			if n, ok := intLit(as.Rhs[0]); ok && n == 0 && top {
 				continue
 			}
+			// at := 4: the prefix is filled in last
+			if n, ok := intLit(as.Rhs[0]); ok && n == 4 && top && !l.bwHole && cur.adv.IsZero() && cur.front.IsZero() {
+				l.bwHole = true
+				cur.adv, cur.front = Const(4), Const(4)
+				continue
+			}
+		}
+		if k, ok := l.bwBackPatch(s); ok && l.bwHole && i+1 < len(stmts) && l.isReturnAt(stmts[i+1]) {
+			l.bwPatched = true
+			l.bwPatchK = append(l.bwPatchK, k)
+			continue
 		}
 		if stem, val, off, ok := l.bwPutStmt(s); ok {
 			if _, known := widthOfStem[stem]; !known {
@@ -477,6 +528,10 @@ func (l *Lifter) bwBlock(stmts []ast.Stmt, cur *cursor, top bool) []Item {
 			if len(x.Results) == 1 {
 				if l.isIdent(x.Results[0], "at") {
 					l.bwClosed(cur, s.Pos(), "return at")
+					if l.bwHole && !l.bwPatched {
+						l.fail("cursor", "", s.Pos(), "this return is reached with the 4 bytes left for the length prefix at the record start never written")
+					}
+					l.bwPatched = false
 					l.Returns = append(l.Returns, "at")
 					if !top {
 						items = append(items, Item{Kind: KUnknown, Text: "$return", Pos: s.Pos()})
